@@ -28,6 +28,8 @@ same slots.  For the source this is a GENERATED obligation (`Gen.C15.keyCoversSc
 reads is a field of the key tuple).  It used to fail — until commit fc67717 the key omitted classifier and view
 types, so an exception view lookup could be answered from an ordinary lookup's entry (fixed finding F-C15a;
 `Props/C15.lean: key_collision_witness` keeps the counterexample as the necessity proof of the obligation).
+Since commit c18a9ea the two specifications enter the key as their RESOLUTION ORDERS (not as objects that are updated
+in place when what a class/object provides changes: fixed finding F-C15c, `interface_change_witness`).
 
 `Proto` holds the five structural facts of the source the proofs rest on.  They are regenerated from the
 source by `extract/c15.py` (`Gen/C15.lean`); `Proto.good` is the protocol as designed, and the machine is
